@@ -191,13 +191,20 @@ pub fn check_case(l: &mut Local, case: &Case) {
                     l.violation("as-integer/endpoint-not-integral", || json!(case), format!("result [{}, {}]", r.lower(), r.upper()));
                 }
             }
-            for n in -1001i64..=1001 {
-                let nf = n as f64;
+            // candidate integers: the small ones, and the outermost / a middle integer of the interval
+            // itself (every f64 of magnitude >= 2^53 is an integer)
+            let mut cands: Vec<f64> = (-1001i64..=1001).map(|n| n as f64).collect();
+            for e in [a.0 .0.ceil(), a.1 .0.floor(), (a.0 .0 / 2.0 + a.1 .0 / 2.0).round()] {
+                if e.is_finite() {
+                    cands.push(e);
+                }
+            }
+            for nf in cands {
                 if a.0 .0 <= nf && nf <= a.1 .0 && !(r.lower() <= nf && nf <= r.upper()) {
                     l.violation(
                         "as-integer/integer-lost",
                         || json!(case),
-                        format!("[{}, {}] contains the integer {n}, the rounded interval [{}, {}] does not", a.0 .0, a.1 .0, r.lower(), r.upper()),
+                        format!("[{}, {}] contains the integer {nf}, the rounded interval [{}, {}] does not", a.0 .0, a.1 .0, r.lower(), r.upper()),
                     );
                     break;
                 }
@@ -365,6 +372,15 @@ pub fn run(ctx: &Ctx) -> Finish {
                 }
             }
         }
+        // endpoints beyond the range of 64-bit integers (an interval is a pair of f64, not of i64)
+        let huge = [-1e300, -3e19, -1e19, -9223372036854775808.0, -9007199254740992.0, 0.0, 9007199254740992.0, 9223372036854775808.0, 1e19, 3e19, 1e300];
+        for lo in huge.iter().chain([-inf].iter()) {
+            for up in huge.iter().chain([inf].iter()) {
+                if lo <= up {
+                    check_case(l, &Case::AsInteger { a: (X(*lo), X(*up)) });
+                }
+            }
+        }
     });
     // --- evaluate_bound
     let mut fs: Vec<FnRep> = vec![FnRep::Unset, FnRep::Const(-1.5)];
@@ -393,6 +409,20 @@ pub fn run(ctx: &Ctx) -> Finish {
                 l.states += 1;
                 let case = Case::EvaluateBound { f: f.clone(), bounds: vec![(1, *a), (2, *b)] };
                 check_case(l, &case);
+            }
+        }
+    });
+    // the same functions under the renaming 1 -> u64::MAX, 2 -> 0 (ids are opaque 64-bit numbers), on a
+    // sub-grid of the interval assignments
+    let ext: Vec<FnRep> = fs.iter().step_by(3).map(|f| super::c01::rename(f, &|i| if i == 1 { u64::MAX } else { 0 })).collect();
+    ctx.par(ext.len(), |l, i| {
+        for (ai, a) in opts.iter().enumerate() {
+            for (bi, b) in opts.iter().enumerate() {
+                if (ai + 2 * bi + i) % 4 != 0 {
+                    continue;
+                }
+                l.states += 1;
+                check_case(l, &Case::EvaluateBound { f: ext[i].clone(), bounds: vec![(u64::MAX, *a), (0, *b)] });
             }
         }
     });
@@ -428,7 +458,7 @@ pub fn run(ctx: &Ctx) -> Finish {
     ctx.assume("Interval endpoints, points and coefficients of the interval part are small dyadic rationals, so pointwise values are computed exactly; containment is asserted exactly.");
     Finish {
         level: "model_checking",
-        rule: "all 26 valid intervals over the endpoint alphabet {-inf,-2,-0.5,0,0.5,3,+inf}: every ordered pair through + and * (and += / *=), powers 0..6, scaling and shifting by non-zero numbers, each checked to be a valid interval enclosing the pointwise result for every alphabet point (corners, faces, interior, far points); as_integer_bound on every 1/4-grid interval containing an integer; evaluate_bound for a degree<=4 function family x every assignment of the 26 intervals (or no entry) to two variables x every grid point of the box; content_factor for all reduced p/q with q,|p| <= 60 (singles, and all ordered pairs in thorough; q,|p| <= 12 pairs in quick) against lcm(q)/gcd(p); non-trivial = non-degenerate operation".into(),
+        rule: "all 26 valid intervals over the endpoint alphabet {-inf,-2,-0.5,0,0.5,3,+inf}: every ordered pair through + and * (and += / *=), powers 0..6, scaling and shifting by non-zero numbers, each checked to be a valid interval enclosing the pointwise result for every alphabet point (corners, faces, interior, far points); as_integer_bound on every 1/4-grid interval containing an integer and on intervals with endpoints beyond the i64 range; evaluate_bound for a degree<=4 function family x every assignment of the 26 intervals (or no entry) to two variables x every grid point of the box (a third of the family again with ids u64::MAX and 0); content_factor for all reduced p/q with q,|p| <= 60 (singles, and all ordered pairs in thorough; q,|p| <= 12 pairs in quick) against lcm(q)/gcd(p); non-trivial = non-degenerate operation".into(),
         bounds: json!({"intervals": 26, "points": POINTS, "pow_max": 6, "evaluate_bound_vars": 2, "content_factor_q_max": 60, "content_factor_pairs_q_max": if t {60} else {12}}),
         exhaustive: t,
     }
